@@ -426,6 +426,7 @@ func runC03(cfg Config) {
 			closeProto()
 		}
 	}
+	runC03Consumers(cfg, rep, rng)
 	rep.Write(cfg.Out)
 }
 
